@@ -101,7 +101,12 @@ def main():
             code = ("import json,sys\nfrom vt.e1.registry import all_contracts\nfrom vt.e1.contract import verify_function\nreg=all_contracts()\nc=reg[%r]\nout=[]\n"
                     "for inst in c.instances():\n    r=verify_function(c,inst,reg)\n    out.append({'inst':r['inst'],'unsupported':r.get('unsupported'),'bad':[(o['name'],o['status']) for o in r['obligations'] if o['status']!='ok']})\nprint(json.dumps(out))" % contract)
             env = dict(os.environ, VERIF_REPO=tmp, PYTHONPATH=here, PYTHONWARNINGS='ignore')
-            r = subprocess.run([py, '-c', code], capture_output=True, text=True, env=env, timeout=2400)
+            try:
+                r = subprocess.run([py, '-c', code], capture_output=True, text=True, env=env, timeout=3600)
+            except subprocess.TimeoutExpired:
+                print('%-45s TIMEOUT (no verdict within an hour: counts as a problem)' % mid)
+                bad += 1
+                continue
             try:
                 res = json.loads(r.stdout.strip().splitlines()[-1])
             except Exception:
